@@ -383,11 +383,16 @@ fn one_case(rep: &mut Report, model: &mut Model, rng: &mut Rng, case_no: u64, si
             apply_fault(&dir, &thread, f, &versions);
             rep.count(&format!("fault_{}", f.class().split(':').next().unwrap()));
         }
-        if *append_after {
+        let append_seed = rng.next();
+        let do_appends = |d: &Path| {
             // the authority restarts on the damaged caches and keeps appending
-            let (_l, s) = open(&dir, &ws);
+            let (_l, s) = open(d, &ws);
             let mut h2 = Hist { msgs: h.msgs.clone(), runs: h.runs + 1000 };
-            grow(&s, &thread, rng, 3, &mut h2, false);
+            let mut arng = Rng::new(append_seed);
+            grow(&s, &thread, &mut arng, 3, &mut h2, false);
+        };
+        if *append_after {
+            do_appends(&dir);
             rep.count("rounds_with_appends_after_faults");
         }
         // the appends themselves must not have been affected by the damaged caches (C05 covers the
@@ -397,22 +402,58 @@ fn one_case(rep: &mut Report, model: &mut Model, rng: &mut Rng, case_no: u64, si
         for name in QUERY_NAMES {
             let (va, vb) = (a.get(*name), b.get(*name));
             rep.count("answers_compared");
-            if va == vb {
+            // termination is part of the property: a call that does not return is a failure even when
+            // it does not return on either side
+            if va.is_none() || vb.is_none() {
+                continue; // not evaluated on one side (an earlier call did not return)
+            }
+            let div_a = va == Some(&json!("DIVERGES"));
+            let div_b = vb == Some(&json!("DIVERGES"));
+            if va == vb && !div_a {
+                continue;
+            }
+            if div_a && div_b {
+                let size_note = if frames_now > 10_000 { "thread longer than every tail window" } else { "short thread" };
+                rep.oracle_failure(&format!("C04|{name}|does-not-terminate|any-cache-state"), &format!("{name} ({size_note}, {frames_now} frames, sidecar {sidecar_len} bytes) does not return within {CALL_CAP_MS} ms with caches as found nor after removing them"), json!({"case": case_no, "size": size, "frames": frames_now, "sidecar_bytes": sidecar_len}));
                 continue;
             }
             // shrink: which single fault (without the later appends) already reproduces it?
+            // shrink to a 1-minimal set of faults (and the later appends) that still reproduces it
             let mut minimal: Option<String> = None;
             if faults.len() > 1 || *append_after {
-                for f in faults {
+                let mut keep: Vec<bool> = vec![true; faults.len()];
+                let mut keep_appends = *append_after;
+                let reproduces = |keep: &Vec<bool>, keep_appends: bool| -> bool {
                     let d1 = scratch.path().join("shrink");
                     let _ = std::fs::remove_dir_all(&d1);
                     copy_dir(&base, &d1);
-                    apply_fault(&d1, &thread, f, &versions);
-                    let (a1, b1) = compare(scratch.path(), "s", &d1, &ws, &thread, &q, Some(name));
-                    if a1.get(*name) != b1.get(*name) {
-                        minimal = Some(f.class());
-                        break;
+                    for (f, k) in faults.iter().zip(keep.iter()) {
+                        if *k {
+                            apply_fault(&d1, &thread, f, &versions);
+                        }
                     }
+                    if keep_appends {
+                        do_appends(&d1);
+                    }
+                    let (a1, b1) = compare(scratch.path(), "s", &d1, &ws, &thread, &q, Some(name));
+                    let r = a1.get(*name) != b1.get(*name);
+                    let _ = std::fs::remove_dir_all(&d1);
+                    r
+                };
+                for i in 0..faults.len() {
+                    keep[i] = false;
+                    if !reproduces(&keep, keep_appends) {
+                        keep[i] = true;
+                    }
+                }
+                if keep_appends && reproduces(&keep, false) {
+                    keep_appends = false;
+                }
+                let mut cs: Vec<String> = faults.iter().zip(keep.iter()).filter(|(_, k)| **k).map(|(f, _)| f.class()).collect();
+                cs.sort();
+                cs.dedup();
+                if !cs.is_empty() || keep_appends {
+                    minimal = Some(format!("{}{}", cs.join("+"), if keep_appends { "+appends" } else { "" }));
                 }
             }
             let cause = if faults.is_empty() {
